@@ -219,9 +219,12 @@ impl SeekableDecoder {
     #[cfg(jubako_verif_loom)]
     pub fn new_verif<T: Read + Send + 'static>(decoder: T, size: ASize, chunk_size: usize) -> Self {
         let (write_hand, read_hand) = create_sync_vec(size.into_usize());
-        loom::thread::spawn(move || {
-            let _ = decode_to_end(decoder, write_hand, chunk_size);
-        });
+        loom::thread::Builder::new()
+            .stack_size(0x80000)
+            .spawn(move || {
+                let _ = decode_to_end(decoder, write_hand, chunk_size);
+            })
+            .expect("Success to launch thread");
         Self { buffer: read_hand }
     }
 
